@@ -144,7 +144,7 @@ func checks() []Check {
 			ID: "C04", Level: "model_checking",
 			Rule:        "stateless model checking of the real engine (instrumented, real unix sockets/epoll) under the cooperative scheduler: every interleaving up to a preemption bound of main, event loops, peers and user threads over a catalogue of connection histories; an execution is one evaluation; per-connection lifecycle monitor",
 			Assumptions: append([]string{"AF_UNIX stream sockets (synchronous delivery/EOF/HUP), this kernel's epoll semantics", "connection identity = the Conn value handed to OnOpen"}, commonAssumptions...),
-			Units:       []Unit{{Name: "life", Pkg: ".", Tags: "verifmc", Test: "TestMC_C04", Instrument: true, Shards: 16, BudgetQuick: 150, BudgetThorough: 1500, Env: []string{"GOMAXPROCS=2"}}, {Name: "life-poll_opt", Pkg: ".", Tags: "verifmc,poll_opt", Tier: "thorough", Test: "TestMC_C04", Instrument: true, Shards: 16, BudgetQuick: 150, BudgetThorough: 1500, Env: []string{"GOMAXPROCS=2"}}, {Name: "life-gc_opt", Pkg: ".", Tags: "verifmc,gc_opt", Tier: "thorough", Test: "TestMC_C04", Instrument: true, Shards: 16, BudgetQuick: 150, BudgetThorough: 1500, Env: []string{"GOMAXPROCS=2"}}},
+			Units:       []Unit{{Name: "life", Pkg: ".", Tags: "verifmc", Test: "TestMC_C04", Instrument: true, Shards: 16, BudgetQuick: 150, BudgetThorough: 1500, Env: []string{"GOMAXPROCS=2"}}, {Name: "life-poll_opt", Pkg: ".", Tags: "verifmc,poll_opt", Tier: "thorough", Test: "TestMC_C04", Instrument: true, Shards: 16, BudgetQuick: 150, BudgetThorough: 1500, Env: []string{"GOMAXPROCS=2"}}, {Name: "life-poll_opt-quick", Pkg: ".", Tags: "verifmc,poll_opt", Test: "TestMC_C04", Instrument: true, Shards: 16, BudgetQuick: 150, BudgetThorough: 1500, Env: []string{"GOMAXPROCS=2", "MC_PB=1"}}, {Name: "life-gc_opt-quick", Pkg: ".", Tags: "verifmc,gc_opt", Test: "TestMC_C04", Instrument: true, Shards: 16, BudgetQuick: 150, BudgetThorough: 1500, Env: []string{"GOMAXPROCS=2", "MC_PB=1"}}, {Name: "life-gc_opt", Pkg: ".", Tags: "verifmc,gc_opt", Tier: "thorough", Test: "TestMC_C04", Instrument: true, Shards: 16, BudgetQuick: 150, BudgetThorough: 1500, Env: []string{"GOMAXPROCS=2"}}},
 		},
 		{
 			ID: "C05", Level: "model_checking",
